@@ -655,6 +655,79 @@ Section Handler.
     fold_left (fun s p => datagram_received fuel s (fst p) (snd p)) l st.
 End Handler.
 
+(* ------------------------------------------------------------------------------------------ *)
+(* handle_request_datagram / _handle_rpc: which decoded requests are served, which are answered   *)
+(* with an error datagram (ValueError / any other exception raised while handling them)           *)
+(* ------------------------------------------------------------------------------------------ *)
+
+(* find_node / find_value: the key must be `bytes` of HASH_LENGTH (find_node: isinstance check added by the fix
+   that followed this check's finding; find_value: it is also a data store key) *)
+Definition hash_key_ok (v : bval) : bool :=
+  match v with BStr s => blen s =? HASH_LENGTH | _ => false end.
+
+(* KademliaRPC.store: 0 < port < 65535 *)
+Definition rpc_port_ok (v : bval) : bool :=
+  match v with BInt p => ((0 <? p) && (p <? 65535))%Z | _ => false end.
+
+Definition is_int (v : bval) : bool := match v with BInt _ => true | _ => false end.
+
+(* _handle_rpc completes (a response is sent) for this request; [own] is the node's own id.
+   After RequestDatagram.__init__ the last element of a list of args is always a dict carrying
+   protocolVersion, so args, kwargs = tuple(message.args[:-1]), message.args[-1]. *)
+Definition request_valid (own : bytes) (m : rawmsg) : bool :=
+  match m with
+  | RReq _ node (BStr method) (BList args) =>
+      let pos := removelast args in
+      let kw := match last args (BInt 0) with BDict d => d | _ => [] end in
+      negb (bytes_eqb node own) &&
+      (if bytes_eqb method s_ping then true
+       else if bytes_eqb method s_store then
+         (5 <=? length pos)%nat && hash_key_ok (nth 0 pos (BInt 0)) && rpc_port_ok (nth 2 pos (BStr []))
+       else if bytes_eqb method s_findNode then
+         match pos with k :: _ => hash_key_ok k | [] => false end
+       else if bytes_eqb method s_findValue then
+         match pos with
+         | k :: _ => hash_key_ok k && match pydict_get kw PAGE_KEY with None => true | Some v => is_int v end
+         | [] => false
+         end
+       else false)
+  | _ => false          (* method not bytes; args a dict (message.args[:-1] raises); not a request *)
+  end.
+
+Section RequestHandler.
+  Variables Routing Store Other Addr : Type.
+  Notation state := (node_state Routing Store Other Addr).
+
+  (* the routing component stands for the table together with its queued additions/removals and the
+     ping queue; [contact_of] is routing_table.get_peer(node_id) or make_kademlia_peer(...) (None: ValueError,
+     the request is ignored); the remaining pieces are left abstract *)
+  Variable contact_of : state -> Addr -> rawmsg -> option Addr.
+  Variable note_request : Other -> Addr -> Other.              (* report_last_requested, metrics *)
+  Variable error_reply : Other -> Addr -> rawmsg -> Other.     (* the ErrorDatagram handed to the transport *)
+  Variable serve : state -> Addr -> rawmsg -> state.           (* a valid request: reply, store, contact bookkeeping *)
+  Variable process_other : state -> Addr -> rawmsg -> state.   (* response and error datagrams *)
+
+  Definition handle_request (own : bytes) (st : state) (sender : Addr) (m : rawmsg) : state :=
+    let st1 := mk_state _ _ _ _ (routing _ _ _ _ st) (store _ _ _ _ st) (failures _ _ _ _ st)
+                        (note_request (other _ _ _ _ st) sender) in
+    match contact_of st sender m with
+    | None => st1
+    | Some c =>
+        if request_valid own m then serve st1 c m
+        else mk_state _ _ _ _ (routing _ _ _ _ st) (store _ _ _ _ st) (c :: failures _ _ _ _ st)
+                      (error_reply (other _ _ _ _ st1) c m)
+    end.
+
+  Definition process_message (own : bytes) (st : state) (sender : Addr) (m : rawmsg) : state :=
+    match m with
+    | RReq _ _ _ _ => handle_request own st sender m
+    | _ => process_other st sender m
+    end.
+
+  Definition node_receive (own : bytes) (fuel : nat) (st : state) (sender : Addr) (data : bytes) : state :=
+    datagram_received Routing Store Other Addr (process_message own) fuel st sender data.
+End RequestHandler.
+
 (* the handler instantiated for the correspondence run: [other] records whether a decoded message was
    handed on to the request/response/error handlers *)
 Definition probe_receive (fuel : nat) (data : bytes) : node_state unit unit bool unit :=
